@@ -612,3 +612,55 @@ class SinkDestroy(SinkInit):
 
 
 ALL += [SinkInit, SinkDestroy]
+
+
+# --------------------------------------------------------------------------- frame of the sink registry (syntactic)
+import ast as _ast
+import time as _time
+from pyvc.contract import Result as _Result
+
+
+class SinkRegistryFrame(Contract):
+    """Frame condition of T4 ("a sink is registered from construction until destroy()"): the registry `_global_sinks` of
+    streamz/sinks.py is touched only where the contracts SinkInit / SinkDestroy look -- `Sink.__init__` adds, `Sink.destroy` removes --
+    and no other function or method of the module mentions it.  Without this the two method contracts say nothing about the
+    registry between construction and destruction (a topology edit, an override of _remove_upstream, ...)."""
+    file = 'streamz/sinks.py'
+    files = ['streamz/sinks.py', 'streamz/core.py']
+    qual = 'Sink.__init__'
+    name = 'sink registry is modified only by Sink.__init__ and Sink.destroy'
+    props = ['C15']
+    ALLOWED = {'Sink.__init__', 'Sink.destroy'}
+
+    def verify(self, index, props=None, want_models=True):
+        src, tree = index.files['streamz/sinks.py']
+        t0 = _time.time()
+        users = []
+
+        def scan(node, qual):
+            for n in _ast.walk(node):
+                if isinstance(n, _ast.Name) and n.id == '_global_sinks':
+                    users.append((qual, n.lineno))
+        for n in tree.body:
+            if isinstance(n, _ast.ClassDef):
+                for m in n.body:
+                    if isinstance(m, (_ast.FunctionDef, _ast.AsyncFunctionDef)):
+                        scan(m, n.name + '.' + m.name)
+                    elif not (isinstance(m, _ast.Expr) and isinstance(m.value, _ast.Constant)):
+                        scan(m, n.name + '.<class body>')
+            elif isinstance(n, (_ast.FunctionDef, _ast.AsyncFunctionDef)):
+                scan(n, n.name)
+            elif isinstance(n, _ast.Assign) and any(isinstance(t, _ast.Name) and t.id == '_global_sinks' for t in n.targets):
+                pass                                    # the definition  _global_sinks = set()
+            else:
+                scan(n, '<module>')
+        bad = sorted(set(q for q, _ in users if q not in self.ALLOWED))
+        res = [_Result(self.name + '/C15.T4_registry_frame', self.props, 'proved' if not bad else 'failed', 'syntactic',
+                       _time.time() - t0, path='ast', contract=self,
+                       detail='' if not bad else '_global_sinks is also used in: %s (lines %s)' % (
+                           ', '.join(bad), ', '.join(str(l) for q, l in users if q in bad)))]
+        self.outcomes = []
+        return res, {'paths': 0, 'seconds': 0, 'branch_checks': 0, 'outcomes': [], 'dropped': [], 'cover': []}
+
+
+ALL += [SinkRegistryFrame]
